@@ -347,9 +347,10 @@ impl AggregateExecutionEngine {
                 }
                 _ => {
                     for subgroups in self.group_values.values() {
-                        if let Some(group_value) = subgroups.get(&aggregate_index) {
-                            result_column.push(transform_value(group_value.clone())?);
-                        }
+                        let group_value = subgroups.get(&aggregate_index)
+                            .cloned()
+                            .unwrap_or_else(|| empty_group_value(&aggregate.aggregate));
+                        result_column.push(transform_value(group_value)?);
                     }
                 }
             }
@@ -603,6 +604,14 @@ impl GroupAggregator {
     }
 }
 
+/// The value of an aggregate over a group without any (non-NULL) value
+fn empty_group_value(aggregate: &Aggregate) -> Value {
+    match aggregate {
+        Aggregate::Count(_, _) => Value::Int(0),
+        _ => Value::Null
+    }
+}
+
 fn extract_having_aggregates<'a>(aggregate_statement: &'a AggregateStatement) -> ExecutionResult<Vec<(usize, &'a Aggregate)>> {
     let mut having_aggregates = Vec::new();
     if let Some(having) = aggregate_statement.having.as_ref() {
@@ -632,6 +641,7 @@ fn accept_group<'a>(group_key_mapping: &HashMap<ExpressionTreeHash, usize>,
                     having: &ExpressionTree) -> ExecutionResult<bool> {
     let mut group_key_columns = HashMap::new();
     let mut group_value_columns = HashMap::new();
+    let empty_values = having_aggregates.iter().map(|(_, aggregate)| empty_group_value(aggregate)).collect::<Vec<_>>();
 
     for (group_key_part, group_key_part_index) in group_key_mapping {
         group_key_columns.insert(
@@ -647,7 +657,9 @@ fn accept_group<'a>(group_key_mapping: &HashMap<ExpressionTreeHash, usize>,
 
         group_value_columns.insert(
             format!("{}_{}", aggregate_id, hash),
-            &group_value[&(aggregate_statement.aggregates.len() + having_aggregate_index)]
+            group_value
+                .get(&(aggregate_statement.aggregates.len() + having_aggregate_index))
+                .unwrap_or(&empty_values[having_aggregate_index])
         );
     }
 
